@@ -5,7 +5,7 @@ import numpy as np
 from ..core import CheckSpec, Outcome, Lean
 
 def _errtag(e):
-    return {RuntimeError: "runtime", KeyError: "key", IndexError: "index", TypeError: "type", ValueError: "value"}.get(type(e), type(e).__name__)
+    return {RuntimeError: "runtime", KeyError: "key", IndexError: "index", TypeError: "type", ValueError: "value", AttributeError: "attribute"}.get(type(e), type(e).__name__)
 
 def gen(rng: random.Random, tier: str):
     n = {"quick": 1500, "thorough": 30000}[tier]
@@ -21,7 +21,7 @@ def gen(rng: random.Random, tier: str):
         f1 = [rng.randint(-5, 5) for _ in range(L)]
         ops = []; cur = L
         for _k in range(rng.randint(1, 6)):
-            kind = rng.choice(["ids", "numbers", "numbers", "getitem", "withvocab", "fields", "len"])
+            kind = rng.choice(["ids", "numbers", "numbers", "getitem", "withvocab", "fields", "len", "ranks", "ranks", "copyids", "copynums", "copyboth", "copyidsvocab", "dropfield", "setfield"])
             if kind == "numbers":
                 alt = rng.choice([None, v1, sorted(rng.sample(universe, rng.randint(1, len(universe))))])
                 ops.append({"op": "numbers", "vocab": alt, "missing": rng.choice(["error", "negative"])})
@@ -34,8 +34,20 @@ def gen(rng: random.Random, tier: str):
                 ops.append({"op": "getitem", "sel": sel, "style": style}); cur = len(sel)
             elif kind == "withvocab":
                 ops.append({"op": "withvocab", "vocab": rng.choice([v1, sorted(rng.sample(universe, rng.randint(1, len(universe))))])})
+            elif kind in ("copyids", "copyboth", "copyidsvocab", "copynums"):
+                # the copy constructor with replaced identifiers / numbers (same length most of the time, another length sometimes)
+                m = cur if rng.random() < 0.6 else rng.randint(0, 5)
+                o = {"op": kind}
+                if kind != "copynums": o["ids"] = rng.sample(universe + [999], min(m, len(universe) + 1)); m = len(o["ids"])
+                if kind in ("copynums", "copyboth"): o["nums"] = [rng.randrange(len(v1)) for _ in range(m if kind == "copyboth" or rng.random() < 0.7 else rng.randint(0, 5))]
+                if kind == "copyidsvocab": o["vocab"] = rng.choice([v1, sorted(rng.sample(universe, rng.randint(1, len(universe))))])
+                ops.append(o)
+                if kind == "copynums": cur = cur          # a length mismatch is rejected; the list keeps its length
+                else: cur = m
+            elif kind == "dropfield": ops.append({"op": "dropfield", "name": "f1"})
+            elif kind == "setfield": ops.append({"op": "setfield", "name": rng.choice(["f1", "f2"]), "vals": [rng.randint(-5, 5) for _ in range(cur if rng.random() < 0.8 else rng.randint(0, 5))]})
             else: ops.append({"op": kind})
-        yield {"mode": mode, "ids": ids, "nums": nums, "vocab": v1, "f1": f1, "ops": ops}
+        yield {"mode": mode, "ids": ids, "nums": nums, "vocab": v1, "f1": f1, "ops": ops, "ordered": rng.random() < 0.5}
 
 def run(case: dict, lean: Lean) -> Outcome:
     from lenskit.data import ItemList, Vocabulary
@@ -45,8 +57,9 @@ def run(case: dict, lean: Lean) -> Outcome:
         if t not in vpool: vpool[t] = Vocabulary(list(t), name="item")
         return vpool[t]
     mode, ids, nums, v1, f1 = case["mode"], case["ids"], case["nums"], case["vocab"], case["f1"]
-    L = len(f1); kw = dict(f1=np.array(f1, dtype="i8"))
-    init = dict(len=L, ids=None, nums=None, vocab=None, fields=[dict(name="f1", vals=f1)], ordered=False)
+    ordered = bool(case.get("ordered", False))
+    L = len(f1); kw = dict(f1=np.array(f1, dtype="i8"), ordered=ordered)
+    init = dict(len=L, ids=None, nums=None, vocab=None, fields=[dict(name="f1", vals=f1)], ordered=ordered)
     ida = np.array(ids, dtype="i8"); na = np.array(nums, dtype="i4")
     if mode == "ids": il = ItemList(item_ids=ida, **kw); init["ids"] = ids
     elif mode == "ids+vocab": il = ItemList(item_ids=ida, vocabulary=vocab(v1), **kw); init.update(ids=ids, vocab=v1)
@@ -62,7 +75,7 @@ def run(case: dict, lean: Lean) -> Outcome:
                 mops.append({"op": "numbers", "vocab": op["vocab"], "missing": op["missing"]})
                 real.append({"ok": [int(x) for x in cur.numbers(vocabulary=None if op["vocab"] is None else vocab(op["vocab"]), missing=op["missing"])]})
             elif k == "getitem":
-                sel = op["sel"]; mops.append({"op": "getitem", "sel": sel})
+                sel = op["sel"]; mops.append({"op": "getitem", "sel": sel, "style": op["style"]})
                 if op["style"] == "mask":
                     m = np.zeros(len(cur), dtype=bool); m[sel] = True; cur = cur[m]
                 elif op["style"] == "slice": cur = cur[sel[0]:sel[-1] + 1] if sel else cur[0:0]
@@ -70,7 +83,19 @@ def run(case: dict, lean: Lean) -> Outcome:
                 real.append("ok")
             elif k == "withvocab":
                 mops.append({"op": "withvocab", "vocab": op["vocab"]}); cur = ItemList(cur, vocabulary=vocab(op["vocab"])); real.append("ok")
-            elif k == "fields": mops.append({"op": "fields"}); real.append({"f1": [int(x) for x in cur.field("f1")]})
+            elif k == "fields":
+                mops.append({"op": "fields"}); real.append({n_: [int(x) for x in cur.field(n_)] for n_ in ("f1", "f2") if cur.field(n_) is not None})
+            elif k == "ranks":
+                mops.append({"op": "ranks"}); r_ = cur.ranks(); real.append(None if r_ is None else [int(x) for x in r_])
+            elif k in ("copyids", "copynums", "copyboth", "copyidsvocab"):
+                mops.append(dict(op))
+                ckw = {}
+                if "ids" in op: ckw["item_ids"] = np.array(op["ids"], dtype="i8")
+                if "nums" in op: ckw["item_nums"] = np.array(op["nums"], dtype="i4")
+                if "vocab" in op: ckw["vocabulary"] = vocab(op["vocab"])
+                cur = ItemList(cur, **ckw); real.append("ok")
+            elif k == "dropfield": mops.append(dict(op)); cur = ItemList(cur, **{op["name"]: False}); real.append("ok")
+            elif k == "setfield": mops.append(dict(op)); cur = ItemList(cur, **{op["name"]: np.array(op["vals"], dtype="i8")}); real.append("ok")
             else: mops.append({"op": "len"}); real.append(len(cur))
         except Exception as e:          # an exception of the implementation is an outcome of the case
             real.append({"err": _errtag(e)})
@@ -82,11 +107,18 @@ def run(case: dict, lean: Lean) -> Outcome:
     classes = [mode]
     kinds = {o["op"] for o in case["ops"]}
     if "withvocab" in kinds: classes.append("re-vocabulary")
+    for k_ in ("copyids", "copynums", "copyboth", "copyidsvocab", "dropfield", "setfield", "ranks"):
+        if k_ in kinds: classes.append("op:" + k_)
+    if ordered: classes.append("ordered list")
     if any(o["op"] == "numbers" and o["vocab"] is not None for o in case["ops"]): classes.append("alternate vocabulary")
     if any(isinstance(r, dict) and "err" in r for r in real): classes.append("error outcome")
     if 999 in ids and mode != "both+vocab": classes.append("unknown identifier")
     if as_is != rep: classes.append("as-is ≠ repaired")
-    key = "ItemList(source, vocabulary=other): stale numbers" if (not spec and real == as_is) else None
+    key = None
+    if not spec and real == as_is:
+        kinds_ = [o["op"] for o in case["ops"]]
+        key = ("ItemList copy constructor: stale ranks / supplied identifiers deleted / numbers deleted twice" if any(k_.startswith("copy") for k_ in kinds_)
+               else "ItemList(source, vocabulary=other): stale numbers")
     return Outcome(corr, spec, tuple(classes), {"impl": real, "as_is": as_is, "repaired": rep, "matches": variant}, key)
 
 def shrink(case: dict):
